@@ -46,7 +46,7 @@ def dig(o, depth=0):
         md = o.metadata if isinstance(o.metadata, dict) else {}
         return {"qc": [[i.operation.name, [o.find_bit(q).index for q in i.qubits], [o.find_bit(c).index for c in i.clbits],
                         [repr(float(x)) for x in i.operation.params]] for i in o.data],
-                "nq": o.num_qubits, "nc": o.num_clbits, "md": {str(k): dig(v, depth + 1) for k, v in sorted(md.items(), key=lambda kv: str(kv[0]))}}
+                "nq": o.num_qubits, "nc": o.num_clbits, "regs": [[r.name, r.size] for r in list(o.qregs) + list(o.cregs)], "md": {str(k): dig(v, depth + 1) for k, v in sorted(md.items(), key=lambda kv: str(kv[0]))}}
     if isinstance(o, (list, tuple)):
         return [dig(x, depth + 1) for x in o]
     if isinstance(o, dict):
@@ -102,6 +102,7 @@ def random_desc(rnd):
     if e in ("compress", "smc", "fst"):
         d["circ"] = rnd.randrange(len(CIRCS[n]))
         d["md"] = rnd.random() < 0.4          # the caller's circuit carries its own metadata
+        d["tail"] = rnd.choice(["", "", "barrier"]) if e in ("smc", "fst") else ""   # ... or ends with a barrier (legal)
     if e in ("smc", "fst") and rnd.random() < 0.5:
         N = rnd.choice([n + 1, n + 2])
         d["N"] = N
@@ -157,6 +158,8 @@ def build_args(d):
         qc = QuantumCircuit(N)
         for nm, qs in CIRCS[n][d["circ"]]:
             getattr(qc, nm)(*qs)
+        if d.get("tail") == "barrier":
+            qc.barrier()
         if d.get("md"):
             qc.metadata = {"owner": "caller", "run": 3}
         a["circuit"] = qc
